@@ -53,6 +53,7 @@ func verif_ctx_with(ctx sdk.Context, key string, v interface{}) sdk.Context { pa
 func verif_blob(msg interface{}) []byte                           { panic("verif") }
 func verif_unblob(bz []byte, ptr interface{}) bool                { panic("verif") }
 func verif_deep_equal(a, b interface{}) bool                      { panic("verif") }
+func verif_deep_copy(a interface{}) interface{}                   { panic("verif") }
 func verif_uf_str(name string, args ...interface{}) string        { panic("verif") }
 func verif_uf_bool(name string, args ...interface{}) bool         { panic("verif") }
 func verif_uf_int(name string, args ...interface{}) int64         { panic("verif") }
